@@ -380,7 +380,13 @@ func checkSendBranchUpdate(p *load.Program, r *kit.Report, chF *types.Var) {
 	bad = ""
 	sendCycle := cycleOf(send.Block())
 	var stepBlock *ssa.BasicBlock
-	if ph, ok := at.Call.Args[1].(*ssa.Phi); ok {
+	hArg := kit.Strip(at.Call.Args[1])
+	if b, ok := hArg.(*ssa.BinOp); ok && b.Op == token.ADD { // `height++` at the top of the body
+		if _, isC := kit.ConstInt(b.Y); isC {
+			hArg = b.X
+		}
+	}
+	if ph, ok := hArg.(*ssa.Phi); ok {
 		for _, e := range ph.Edges {
 			if b, ok := e.(*ssa.BinOp); ok && (b.X == ssa.Value(ph) || b.Y == ssa.Value(ph)) {
 				stepBlock = b.Block()
@@ -401,6 +407,9 @@ func checkSendBranchUpdate(p *load.Program, r *kit.Report, chF *types.Var) {
 					if ph, ok := b.X.(*ssa.Phi); ok {
 						chanHeader = ph.Block()
 					}
+				}
+				if ph, ok := idx.Index.(*ssa.Phi); ok { // explicit index loop
+					chanHeader = ph.Block()
 				}
 			}
 		}
